@@ -16,7 +16,7 @@
    Without the hypothesis history independence is false for the code as it is
    (known finding collision-bucket-insertion-order): Pinned.bucket_order_refuted. *)
 From Coq Require Import List ZArith Bool Sorted Lia.
-From GZ Require Import C15.Model C15.Check C15.Proofs C15.ProofsB.
+From GZ Require Import C15.Model C15.Cluster C15.Check C15.Proofs C15.ProofsB C15.ProofsC.
 Import ListNotations.
 Open Scope Z_scope.
 
@@ -190,3 +190,121 @@ Example cf_add_moves :
   get (step cf_hash 100 (run cf_hash 100 cf_ops1) (OAdd (mkNode 4 3))) 310 0 = GSome (mkNode 4 3) /\
   get (step cf_hash 100 (run cf_hash 100 cf_ops1) (OAdd (mkNode 4 3))) 250 0 = GSome (mkNode 3 2).
 Proof. vm_compute. split; [|auto]. intros [H|[H|[]]]; discriminate. Qed.
+
+(* ======== round 3 ========================================================================== *)
+
+(* ---- Get as a function of the node map, for EVERY hash function (no collision-freeness) -----
+   Get never panics; it answers none iff the node map has no live virtual node; otherwise it
+   answers a value of a node of the map that owns the cyclic successor slot of the key's hash.
+   (With collisions several nodes may own that slot — which of them answers is the known finding
+   collision-bucket-insertion-order; that it is ONE OF THEM holds always.) *)
+Theorem get_is_an_owner_of_successor_any_hash : forall vh R ops hp ihp,
+  let m := amap_run R ops in
+  (forall x, get (run vh R ops) hp ihp = GSome x ->
+             exists k, Live vh m x k /\ is_succ (live_hash vh m) hp k) /\
+  (get (run vh R ops) hp ihp = GNone <-> forall h, ~ live_hash vh m h) /\
+  get (run vh R ops) hp ihp <> GPanic.
+Proof. exact get_owner_any_hash_l. Qed.
+Print Assumptions get_is_an_owner_of_successor_any_hash.
+
+(* ---- Check.prop_ok is not an oracle: what its clauses mean ------------------------------------
+   [owner_ok (vnodes t m) hp g] — evaluated on every observed answer g, on every universe — holds
+   iff g is none and the map has no live virtual node, or g is the value of a node owning the
+   successor slot: the statement of the theorem above, with the hash the harness measured. *)
+Theorem owner_ok_means_owner_of_successor : forall t R ops hp g,
+  table_ok t R = true -> 0 <= R -> ops_in_U (fun n => In n (map fst t)) ops ->
+  let m := amap_run R ops in
+  owner_ok (vnodes t m) hp g = true <->
+  ((forall h, ~ live_hash (vh_of t) m h) /\ g = -1) \/
+  (exists x k, g = nval x /\ Live (vh_of t) m x k /\ is_succ (live_hash (vh_of t) m) hp k).
+Proof. exact owner_ok_run_iff_l. Qed.
+Print Assumptions owner_ok_means_owner_of_successor.
+
+(* On a collision-free table the clause determines the answer: it is [spec_get] (the third clause
+   of step_ok is implied by the second; it is evaluated anyway). *)
+Theorem owner_ok_determines_answer : forall t R ops hp g,
+  table_ok t R = true -> 0 <= R -> collision_free t = true ->
+  ops_in_U (fun n => In n (map fst t)) ops ->
+  owner_ok (vnodes t (amap_run R ops)) hp g = true -> g = spec_get_vs (vnodes t (amap_run R ops)) hp.
+Proof. exact owner_ok_determines_l. Qed.
+Print Assumptions owner_ok_determines_answer.
+
+(* The model's own answers pass [step_ok] (membership, owner of the successor slot, equality with
+   spec_get when the table is collision-free) after every history, for every hash: the check can
+   fail on an implementation only where the implementation differs from the model or the model
+   is wrong — never by itself. *)
+Theorem model_answers_pass_step_ok : forall t R ops ps,
+  table_ok t R = true -> 0 <= R -> ops_in_U (fun n => In n (map fst t)) ops ->
+  step_ok t (collision_free t && table_ok t R) ps (amap_run R ops)
+          (gets_of t (run (vh_of t) R ops) ps) = true.
+Proof. exact step_ok_model_l. Qed.
+Print Assumptions model_answers_pass_step_ok.
+
+(* ---- the users of the ring (Cluster.v: cacheCluster, clusterStore, the cleaner's retries) -----
+   For every set of instances (any ring states), every key set, every retry-delay table and EVERY
+   script of operations, multi-key Dels, injected faults and ticks: each command that reaches a
+   server for key k on behalf of instance i reaches the server dispatcher.Get(k) of instance i
+   returns — immediately or as a delayed retry.  [owner] is Get, as a server index. *)
+Theorem cluster_dispatch_faithful : forall insts keys delays ops r i k s,
+  In r (crun insts keys delays cinit ops) -> In (i, k, s) (snd r) -> owner insts keys i k = Some s.
+Proof. exact cluster_dispatch_l. Qed.
+Print Assumptions cluster_dispatch_faithful.
+
+(* ... and nothing is left out: a Del reaches the owner of each of its keys (each key on its own
+   node), whatever the state of faults and pending retries; a single-key operation touches exactly
+   its key's owner. *)
+Theorem cluster_del_reaches_every_owner : forall insts keys delays st i ks k s,
+  In k ks -> owner insts keys i k = Some s ->
+  In (i, k, s) (snd (cstep insts keys delays st (CDel i ks))).
+Proof. exact del_reaches_l. Qed.
+Print Assumptions cluster_del_reaches_every_owner.
+
+Theorem cluster_single_touches_its_owner : forall insts keys delays st i k s,
+  owner insts keys i k = Some s -> snd (cstep insts keys delays st (CSingle i k)) = [(i, k, s)].
+Proof. exact single_touches_l. Qed.
+Print Assumptions cluster_single_touches_its_owner.
+
+(* With rings built by the constructors (any configuration history [snd c] per instance, any hash):
+   every touched server is a member of that instance's ring and owns the cyclic successor slot of
+   the key in that instance's node map. *)
+Theorem cluster_touches_member_owning_successor : forall vh R (cfg : list (bool * list op)) keys delays ops r i k s,
+  let insts := map (fun c => mkInst (fst c) (run vh R (snd c))) cfg in
+  In r (crun insts keys delays cinit ops) -> In (i, k, s) (snd r) ->
+  exists ic hp ihp x,
+    nth_error cfg (Z.to_nat i) = Some ic /\ nth_error keys (Z.to_nat k) = Some (hp, ihp) /\
+    get (run vh R (snd ic)) hp ihp = GSome x /\ nval x = s /\
+    In (nrepr x) (nodes (run vh R (snd ic))) /\
+    exists kk, Live vh (amap_run R (snd ic)) x kk /\ is_succ (live_hash vh (amap_run R (snd ic))) hp kk.
+Proof. exact cluster_touch_member_l. Qed.
+Print Assumptions cluster_touches_member_owning_successor.
+
+(* ---- non-vacuity: two clusters over the same two servers, configured in opposite orders ------ *)
+Definition ex_cfg : list (bool * list op) :=
+  [(true, [OAddW (mkNode 1 0) 100; OAddW (mkNode 2 1) 50]);
+   (false, [OAddW (mkNode 2 1) 50; OAddW (mkNode 1 0) 100])].
+Definition ex_insts : list inst := map (fun c => mkInst (fst c) (run cf_hash 100 (snd c))) ex_cfg.
+Definition ex_keys : list (Z * Z) := [(120, 0); (220, 0); (260, 0); (199, 0)].
+(* server 1 is down for a 3-key Del of the cache cluster and a 2-key Del of the kv store; the cache
+   node retries its keys at the next tick (still down: again 5 ticks later), the store does not *)
+Definition ex_script : list cop :=
+  [CSingle 0 0; CFault 1 true; CDel 0 [0; 1; 2]; CDel 1 [1; 3]; CTick; CFault 1 false;
+   CTick; CTick; CTick; CTick; CTick].
+Example ex_cluster_run :
+  map snd (crun ex_insts ex_keys [1; 5; 60] cinit ex_script) =
+  [ [(0, 0, 0)]; [];
+    [(0, 0, 0); (0, 2, 0); (0, 1, 1)];      (* one DEL per node; key 2 (hash 260) wraps: node 2 holds 200..249 only *)
+    [(1, 1, 1); (1, 3, 0)];
+    [(0, 1, 1)]; []; []; []; []; []; [(0, 1, 1)] ].
+Proof. vm_compute. reflexivity. Qed.
+(* both instances have the same node map, hence (collision-free hash) the same owners *)
+Example ex_same_owners :
+  forall k, In k [0; 1; 2; 3] -> owner ex_insts ex_keys 0 k = owner ex_insts ex_keys 1 k.
+Proof. intros k H. repeat (destruct H as [<-|H]; [vm_compute; reflexivity|]). destruct H. Qed.
+
+(* owner_ok on a colliding table (two nodes share slot 7): both owners pass, a third value does not *)
+Example ex_owner_ok_collision :
+  let t := [(0, [7; 20]); (1, [7; 30]); (2, [15; 40])] in
+  let m := amap_run 2 [OAdd (mkNode 0 10); OAdd (mkNode 1 11); OAdd (mkNode 2 12)] in
+  owner_ok (vnodes t m) 5 10 = true /\ owner_ok (vnodes t m) 5 11 = true /\ owner_ok (vnodes t m) 5 12 = false /\
+  owner_ok (vnodes t m) 41 10 = true /\ owner_ok (vnodes t m) 41 (-1) = false.
+Proof. vm_compute. auto. Qed.
